@@ -27,6 +27,7 @@ type failWriter struct {
 	calls    int
 	chunks   []any // every Write's payload (healthy runs): the chunk list handed to the model
 	err      error // what the failing Write reports (nil = errSink)
+	onWrite  func() // called at the first Write (e.g. cancels the caller's context while the document is being delivered)
 }
 
 // what a destination reports when it fails: a sentinel, the errors of a closed pipe and a short write, the end-of-file value, a cancelled
@@ -52,6 +53,9 @@ var errSink = errors.New("sink failed")
 
 func (w *failWriter) Write(p []byte) (int, error) {
 	w.calls++
+	if w.calls == 1 && w.onWrite != nil {
+		w.onWrite()
+	}
 	if w.failCall > 0 && w.calls == w.failCall {
 		return 0, w.fail()
 	}
@@ -291,6 +295,24 @@ func runC12(r *Run, replay *Case) {
 					}
 					r.Add(ck)
 				}
+			}
+			// 3c. the context is cancelled WHILE the document is being delivered (at the destination's first Write): whatever the call answers,
+			//     an error never comes with a complete document, and nil never with an incomplete one
+			{
+				ctxc, cancel := context.WithCancel(context.Background())
+				wc := &failWriter{failAt: -1, onWrite: cancel}
+				errc, _ := c12Call(p, e, ctxc, wc)
+				cancel()
+				cc := &Case{Name: fmt.Sprintf("%s via %s, context cancelled at the first write", p.desc, e), Input: map[string]any{"prog": p.desc, "entry": e, "case": "cancel-during"},
+					Key: fmt.Sprintf("%s|%s|cancel-during", p.desc, e), Tags: []string{"entry:" + e, "prog:" + p.desc, "kind:cancel-during"}, Oracle: &Verdict{OK: true},
+					Impl: map[string]any{"err": errc != nil, "len": wc.written.Len()}}
+				if err == nil && errc != nil && wc.written.String() == full && full != "" {
+					cc.Oracle = &Verdict{OK: false, Class: "error-with-complete-document:" + e, Detail: fmt.Sprintf("the context was cancelled while the destination received the document; the render returned %q although the destination holds all %d bytes", errc, len(full))}
+				}
+				if errc == nil && wc.written.String() != full {
+					cc.Oracle = &Verdict{OK: false, Class: "writer-failure-swallowed:" + e + ":cancel-during", Detail: fmt.Sprintf("nil with %d of %d bytes", wc.written.Len(), len(full))}
+				}
+				r.Add(cc)
 			}
 			// 4. a TRANSIENT failure: exactly one Write call fails (nothing accepted), every other call succeeds. nil must still imply that the
 			//    destination received the complete document.
